@@ -41,6 +41,19 @@ structure Holds (cfg : Cfg) : Prop where
   apiNameRejects : ∀ name : Bytes, createFileCfg cfg name 0 = none → apiAcceptsName cfg name = false
   /-- the chronicler's INSERT / UPDATE choice cannot change what is read back -/
   opChoice : ∀ ts : List Treasure, specOf ((ts.map entryOf).map asInsert) = specOf (ts.map entryOf)
+  /-- compaction of a closed file keeps every record and the name -/
+  compaction : ∀ (codec : Codec) (crc : Checksum) (bs : Nat) (name : Bytes) (now now' : Nat) (ops : List Op),
+    maxSizeOf bs ≤ 2 ^ 30 → name.length < 2 ^ 16 → name ≠ [] → PayloadsSane ops →
+    ∃ idx idx',
+      loadIndex cfg codec.toDecoder crc (runOps cfg codec crc bs (createFile name now) (ops ++ [.close])).file = .ok (idx, name) ∧
+      loadIndex cfg codec.toDecoder crc
+        (compactSt cfg codec crc bs now' (runOps cfg codec crc bs (createFile name now) (ops ++ [.close]))).1.file = .ok (idx', name) ∧
+      ∀ k, idx'.find k = idx.find k
+  /-- `chroniclerV2.Load` (with or without its self-heal compaction) delivers the Spec state's decodable records -/
+  chronLoads : ∀ (codec : Codec) (crc : Checksum) (bs : Nat) (name : Bytes) (now now' : Nat) (ops : List Op) (heals : Bool),
+    maxSizeOf bs ≤ 2 ^ 30 → name.length < 2 ^ 16 → name ≠ [] → PayloadsSane ops →
+    (chronLoad cfg codec crc bs now' name heals (runOps cfg codec crc bs (createFile name now) (ops ++ [.close]))).1
+      = (specFold cfg (ops ++ [.close])).filter (fun p => !p.2.isEmpty)
   /-- whatever has left the write buffer loads to the Spec state of exactly those acknowledged
       writes (after flush/sync/close: of all acknowledged writes) -/
   replays : ∀ (codec : Codec) (crc : Checksum) (bs : Nat) (name : Bytes) (now : Nat) (ops : List Op),
@@ -81,33 +94,6 @@ theorem encodable_of_accepts (cfg : Cfg) (h1 : cfg.rejectsEmptyKey = true) (h2 :
   cases hkey : e.key with
   | nil => simp [hkey] at hk
   | cons _ _ => simp
-
-/-- **C01 holds** for every history, block size, name, codec and checksum when `WriteEntry`
-    validates keys, the buffer flushes before the 16-bit count wraps and `LoadIndex` handles deletes. -/
-theorem holds_of_good (cfg : Cfg) (hg : Good cfg) : Holds cfg := by
-  obtain ⟨h1, h2, h3, h4, h5, h6⟩ := hg
-  refine ⟨encodable_of_accepts cfg h1 h2, ?_, ?_, fun ts => insert_update_equivalent _, ?_⟩
-  · intro t hd hne
-    have h5' : (cfg.chronSurfacesError || cfg.apiValidatesKeys) = true := by
-      rcases h5 with h | h <;> simp [h]
-    simp only [apiReports, h5', Bool.true_and, Bool.not_eq_true']
-    cases ha : accepts cfg (entryOf t) with
-    | false => rfl
-    | true =>
-      exfalso; apply hne
-      apply encodable_of_accepts cfg h1 h2 _ _ ha
-      unfold entryOf; split <;> simp <;> omega
-  · intro name hc
-    unfold createFileCfg at hc
-    split at hc
-    · rename_i hcond
-      simp only [Bool.and_eq_true, decide_eq_true_eq] at hcond
-      simp [apiAcceptsName, h6 hcond.1, hcond.2]
-    · cases hc
-  intro codec crc bs name now ops hbs hn hp
-  have hP : Params cfg bs := ⟨hbs, Or.inl h4⟩
-  have hW : WritesOK cfg ops := fun e he ha => ⟨encodable_of_accepts cfg h1 h2 e (hp e he) ha, hp e he⟩
-  exact replays_partial cfg h3 codec crc bs name now ops hP hn hW
 
 /-! ### Non-vacuity: a three-session history with updates and deletes meets every hypothesis -/
 
@@ -387,6 +373,160 @@ where
     unfold readSwampName
     rw [ho]
     simp [hver]
+
+/-! ### Compaction and `chroniclerV2.Load` on top of the same writer -/
+
+theorem accepted_ok (cfg : Cfg) (ops : List Op) (hW : WritesOK cfg ops) (b : Bool) : ∀ e ∈ accepted cfg b ops, EntryOK e := by
+  induction ops generalizing b with
+  | nil => intro e he; simp [accepted] at he
+  | cons op ops ih =>
+    obtain ⟨h1, h2⟩ := writesOK_cons cfg op ops hW
+    intro e he
+    simp only [accepted, List.mem_append] at he
+    rcases he with he | he
+    · cases op <;> cases b <;> simp [acceptedBy] at he
+      rename_i e'
+      obtain ⟨ha, rfl⟩ := he
+      exact h1 e rfl ha
+    · exact ih h2 _ e he
+
+/-- rewriting a file from its live index (one INSERT per record, then `Close`) yields a file that
+    loads to the same map under the same name — the common core of `Compactor.Compact` and
+    `CompactFromIndex` -/
+theorem rewrite_preserves_index (cfg : Cfg) (hd : cfg.deleteRemoves = true) (codec : Codec) (crc : Checksum) (bs : Nat)
+    (hP : Params cfg bs) (now : Nat) (nm : Bytes) (hn : nm.length < 2 ^ 16) (es : List Entry) (hes : ∀ e ∈ es, EntryOK e) :
+    ∃ idx', loadIndex cfg codec.toDecoder crc
+        (runOps cfg codec crc bs (createFile nm now) (((specOf es).map fun p => Op.write ⟨opInsert, p.1, p.2⟩) ++ [.close])).file
+          = .ok (idx', if nm.isEmpty then [] else nm) ∧
+      ∀ k, idx'.find k = (specOf es).find k := by
+  have hok : ∀ p ∈ specOf es, EntryOK ⟨opInsert, p.1, p.2⟩ :=
+    mem_specOf es (fun k v => EntryOK ⟨opInsert, k, v⟩) (fun e he => by
+      obtain ⟨⟨h0, h1, h2⟩, h3⟩ := hes e he
+      exact ⟨⟨h0, h1, h2⟩, h3⟩)
+  obtain ⟨idx', hload, hfind, _⟩ := inserts_roundtrip cfg hd codec crc bs hP nm now hn (specOf es) (keysNodup_specOf es) hok
+  exact ⟨idx', hload, fun k => by rw [hfind k]; rfl⟩
+
+/-- **compaction_preserves_index**: after any history that ends with `Close`, `Compactor.Compact`
+    (forced) leaves a file that loads to the same records under the same name. -/
+theorem compaction_preserves_index (cfg : Cfg) (hd : cfg.deleteRemoves = true) (codec : Codec) (crc : Checksum) (bs : Nat)
+    (hP : Params cfg bs) (name : Bytes) (now now' : Nat) (hn : name.length < 2 ^ 16) (hne : name ≠ [])
+    (ops : List Op) (hW : WritesOK cfg ops) :
+    ∃ idx idx',
+      loadIndex cfg codec.toDecoder crc (runOps cfg codec crc bs (createFile name now) (ops ++ [.close])).file = .ok (idx, name) ∧
+      loadIndex cfg codec.toDecoder crc
+        (compactSt cfg codec crc bs now' (runOps cfg codec crc bs (createFile name now) (ops ++ [.close]))).1.file = .ok (idx', name) ∧
+      ∀ k, idx'.find k = idx.find k := by
+  have hW' : WritesOK cfg (ops ++ [.close]) := by
+    intro e he ha
+    apply hW e _ ha
+    have : ∀ l : List Op, writesOf (l ++ [.close]) = writesOf l := by
+      intro l; induction l with
+      | nil => rfl
+      | cons o l ih => cases o <;> simp [writesOf, ih]
+    rwa [this] at he
+  have hemp : name.isEmpty = false := by cases name with | nil => exact absurd rfl hne | cons _ _ => rfl
+  obtain ⟨fl, hfl, hload⟩ := loadIndex_runOps cfg codec crc bs hP name now hn (ops ++ [.close]) hW'
+  rw [pending_after_close, List.append_nil] at hfl
+  subst hfl
+  simp only [hemp, Bool.false_eq_true, if_false] at hload
+  have hes := accepted_ok cfg (ops ++ [.close]) hW' true
+  obtain ⟨idx', hload', hfind⟩ := rewrite_preserves_index cfg hd codec crc bs hP now' name hn _ hes
+  simp only [hemp, Bool.false_eq_true, if_false] at hload'
+  have hsess : (runOps cfg codec crc bs (createFile name now) (ops ++ [.close])).sess = none := by
+    simp only [runOps, List.foldl_append, List.foldl_cons, List.foldl_nil]
+    generalize List.foldl (fun s o => (step cfg codec crc bs s o).1) (createFile name now) ops = s
+    obtain ⟨f, sess⟩ := s
+    cases sess <;> simp [step]
+  have hcf : createFileCfg cfg name now' = some (createFile name now') := by
+    unfold createFileCfg
+    rw [if_neg]
+    simp only [Bool.and_eq_true, decide_eq_true_eq, not_and, Nat.not_lt]
+    intro _; omega
+  refine ⟨_, idx', hload, ?_, fun k => by rw [hfind k, replay_eq_specOf cfg hd]⟩
+  simp only [compactSt, hsess, hload, hcf]
+  rw [replay_eq_specOf cfg hd]
+  exact hload'
+
+/-- **load_replays**: `chroniclerV2.Load` hands the swamp exactly the records of the Spec state that
+    have a non-empty payload (an empty one cannot be decoded into a treasure and is skipped), and —
+    whether or not it self-heals by `CompactFromIndex` — leaves a file that loads to the same map. -/
+theorem load_replays (cfg : Cfg) (hd : cfg.deleteRemoves = true) (codec : Codec) (crc : Checksum) (bs : Nat)
+    (hP : Params cfg bs) (name : Bytes) (now now' : Nat) (hn : name.length < 2 ^ 16) (hne : name ≠ [])
+    (ops : List Op) (hW : WritesOK cfg ops) (heals : Bool) :
+    let st := runOps cfg codec crc bs (createFile name now) (ops ++ [.close])
+    (chronLoad cfg codec crc bs now' name heals st).1 = (specFold cfg (ops ++ [.close])).filter (fun p => !p.2.isEmpty) ∧
+    ∃ idx', loadIndex cfg codec.toDecoder crc (chronLoad cfg codec crc bs now' name heals st).2.file = .ok (idx', name) ∧
+      ∀ k, idx'.find k = (specFold cfg (ops ++ [.close])).find k := by
+  intro st
+  have hW' : WritesOK cfg (ops ++ [.close]) := by
+    intro e he ha
+    apply hW e _ ha
+    have : ∀ l : List Op, writesOf (l ++ [.close]) = writesOf l := by
+      intro l; induction l with
+      | nil => rfl
+      | cons o l ih => cases o <;> simp [writesOf, ih]
+    rwa [this] at he
+  have hemp : name.isEmpty = false := by cases name with | nil => exact absurd rfl hne | cons _ _ => rfl
+  obtain ⟨fl, hfl, hload⟩ := loadIndex_runOps cfg codec crc bs hP name now hn (ops ++ [.close]) hW'
+  rw [pending_after_close, List.append_nil] at hfl
+  subst hfl
+  simp only [hemp, Bool.false_eq_true, if_false] at hload
+  rw [replay_eq_specOf cfg hd] at hload
+  have hsess : st.sess = none := by
+    simp only [st, runOps, List.foldl_append, List.foldl_cons, List.foldl_nil]
+    generalize List.foldl (fun s o => (step cfg codec crc bs s o).1) (createFile name now) ops = s
+    obtain ⟨f, sess⟩ := s
+    cases sess <;> simp [step]
+  have hcf : createFileCfg cfg name now' = some (createFile name now') := by
+    unfold createFileCfg
+    rw [if_neg]
+    simp only [Bool.and_eq_true, decide_eq_true_eq, not_and, Nat.not_lt]
+    intro _; omega
+  obtain ⟨idx', hload', hfind⟩ := rewrite_preserves_index cfg hd codec crc bs hP now' name hn _ (accepted_ok cfg (ops ++ [.close]) hW' true)
+  simp only [hemp, Bool.false_eq_true, if_false] at hload'
+  unfold chronLoad
+  simp only [st] at hsess ⊢
+  rw [hload]
+  simp only [hemp, Bool.false_eq_true, if_false, hsess, Option.isNone_none, Bool.and_true]
+  refine ⟨rfl, ?_⟩
+  cases heals with
+  | false => exact ⟨_, hload, fun _ => rfl⟩
+  | true =>
+    simp only [if_true, compactFromIndexSt, hcf]
+    exact ⟨idx', hload', hfind⟩
+
+/-- **C01 holds** for every history, block size, name, codec and checksum when `WriteEntry`
+    validates keys, the buffer flushes before the 16-bit count wraps and `LoadIndex` handles deletes. -/
+theorem holds_of_good (cfg : Cfg) (hg : Good cfg) : Holds cfg := by
+  obtain ⟨h1, h2, h3, h4, h5, h6⟩ := hg
+  refine ⟨encodable_of_accepts cfg h1 h2, ?_, ?_, fun ts => insert_update_equivalent _, ?_, ?_, ?_⟩
+  · intro t hd hne
+    have h5' : (cfg.chronSurfacesError || cfg.apiValidatesKeys) = true := by
+      rcases h5 with h | h <;> simp [h]
+    simp only [apiReports, h5', Bool.true_and, Bool.not_eq_true']
+    cases ha : accepts cfg (entryOf t) with
+    | false => rfl
+    | true =>
+      exfalso; apply hne
+      apply encodable_of_accepts cfg h1 h2 _ _ ha
+      unfold entryOf; split <;> simp <;> omega
+  · intro name hc
+    unfold createFileCfg at hc
+    split at hc
+    · rename_i hcond
+      simp only [Bool.and_eq_true, decide_eq_true_eq] at hcond
+      simp [apiAcceptsName, h6 hcond.1, hcond.2]
+    · cases hc
+  · intro codec crc bs name now now' ops hbs hn hne hp
+    have hW : WritesOK cfg ops := fun e he ha => ⟨encodable_of_accepts cfg h1 h2 e (hp e he) ha, hp e he⟩
+    exact compaction_preserves_index cfg h3 codec crc bs ⟨hbs, Or.inl h4⟩ name now now' hn hne ops hW
+  · intro codec crc bs name now now' ops heals hbs hn hne hp
+    have hW : WritesOK cfg ops := fun e he ha => ⟨encodable_of_accepts cfg h1 h2 e (hp e he) ha, hp e he⟩
+    exact (load_replays cfg h3 codec crc bs ⟨hbs, Or.inl h4⟩ name now now' hn hne ops hW heals).1
+  intro codec crc bs name now ops hbs hn hp
+  have hP : Params cfg bs := ⟨hbs, Or.inl h4⟩
+  have hW : WritesOK cfg ops := fun e he ha => ⟨encodable_of_accepts cfg h1 h2 e (hp e he) ha, hp e he⟩
+  exact replays_partial cfg h3 codec crc bs name now ops hP hn hW
 
 /-! ### Decision over the extracted facts -/
 
